@@ -302,7 +302,8 @@ def flag_used_as_truth(ctx, rule: str, fi: FuncInfo, flag: str, args: Dict[str, 
             if isinstance(t, P) and t.op not in ('not', 'and', 'or') and any(veq(u, fv) for u in walk_vals(t)):
                 leaves.append(t)
     odd = sorted({str(t) for t in leaves if not (t.op == 'truthy' and veq(t.args[0], fv))})
-    return ctx.check(bool(leaves) and not odd, rule, f"{what}: `{flag}` is used as a truth value (any true value selects the same behaviour as True)",
+    opaque = not leaves and any(isinstance(t, Term) and t.head in ('stored', 'loopstate', 'loopvar', 'mutated') for v in vals if v is not None for t in walk_vals(v))
+    return ctx.check(None if opaque else (bool(leaves) and not odd), rule, f"{what}: `{flag}` is used as a truth value (any true value selects the same behaviour as True)",
                      f"tests on the flag: {odd or [str(t) for t in leaves][:3] or 'none found'}", fi.loc(), fi.qualname, f"truthy:{fi.name}:{flag}")
 
 
